@@ -200,6 +200,29 @@ def rule_y3_y4(chk: Check, ci) -> None:
     for c in bad:
         chk.finding("Y3", fi.key, f"reencode:{norm(c)[:40]}", f"`{norm(c)}` reinterprets the client's path/query on its way upstream", fi.loc(c))
     chk.ob("Y3", f"{fi.key}: path and query forwarded verbatim", not bad, evals=len(all_calls))
+    # the accessors the proxy reads the path and query through must hand out the raw
+    # (still percent-escaped) components: a decoding accessor turns %2F / %3F / %23
+    # into live delimiters when the joined URL is parsed again
+    from .common import request_accessor_decodes
+
+    seen_acc = 0
+    for n in g.nodes:
+        if n.ast is None or n.kind not in ("stmt", "test"):
+            continue
+        for x in walk(n.ast):
+            if isinstance(x, ast.Attribute) and x.attr in ("path", "query") and isinstance(x.value, ast.Name):
+                k = request_accessor_decodes(chk.proj, n.func, x)
+                if k == 0 and not any(a.arg == x.value.id for a in n.func.node.args.args):
+                    continue
+                seen_acc += 1
+                if k != 0:
+                    chk.finding(
+                        "Y3", fi.key, f"decoding-accessor:{norm(x)}",
+                        f"`{norm(x)}` is percent-decoded by the request class before the proxy joins it to the upstream base: an escaped reserved character (%2F, %3F, %23, %25) reaches the upstream as a delimiter or is decoded twice",
+                        n.where(),
+                    )
+                chk.ob("Y3", f"{fi.key}: `{norm(x)}` is the raw component", k == 0)
+    chk.require("Y3", fi.key, "request path/query accessor reads", seen_acc, 1, "the proxy no longer derives the upstream URL from the request's path")
     gets = [c for c in all_calls if method_call(c) and method_call(c)[1] == "get" and dotted(method_call(c)[0]) == "self._client"]
     ok = len(gets) == 1
     other_net = [c for c in all_calls if method_call(c) and method_call(c)[1] in ("create_connection", "open_connection", "upload", "delete") or (dotted(c.func) or "").split(".")[-1] in ("GeminiClient",)]
